@@ -81,7 +81,11 @@ theorem C17_lte_narrow (d c : FD) (h : FD.WF d) (t : Int) :
       (fun x y hx hxy => by simp only [decide_eq_true_eq] at *; omega) hc
     simpa using this x
 
-/-! ### the global theorems: propagation loses no solution -/
+/-! ### the global theorems: propagation loses no solution.  Stated for both modes of Spec/FDSem.lean: with
+    `[Mode]` strict, `FAtom.OK` excludes `distinctfd`; lax, `distinctfd` on a proper list term is allowed
+    (`C17_distinctfd_*`). -/
+section Global
+variable [Mode]
 
 /-- COMPLETENESS OF PROPAGATION, every posting order, sign, aliasing and hash-iteration order: every
     valuation that satisfies all posted atoms is still described by the state reached — bounds narrowing,
@@ -126,7 +130,26 @@ theorem C17_label_partition (st : State) (w : WFS st) (x : Nat) (d : FD) (h : st
   obtain ⟨n, hn, hnd⟩ := hs.2.2 (x, d) (dget_mem h) (fun f => f.elim)
   refine ⟨n, ⟨(FD.iter_mem d (w.dwf _ (dget_mem h)) n).2 hnd, hn⟩, fun k' hk => numAt_unique hk.2 hn⟩
 
+end Global
+
+/-- COMPLETENESS WITH `distinctfd`: every valuation that satisfies all posted atoms — `distinctfd` on proper
+    list terms included — is still described by the state reached: the duplicate scan, the binary insertion
+    into the collected constants and the exclusion of those constants from the remaining domains (which
+    reads the domain store once, before its loop) never discard a solution. -/
+theorem C17_distinctfd_no_solution_lost {ord : Order} (ho : OrderOK ord) (n : Nat) (as : List FAtom)
+    (hok : ∀ a ∈ as, @FAtom.OK Mode.lax a)
+    (st' : State) (h : postAllF ord (State.empty n) as = .ok st') (γ : Subst) (hγ : ∀ a ∈ as, a.Sat γ) :
+    Sem NoI γ st' := @C17_no_solution_lost Mode.lax ord ho n as hok st' h γ hγ
+
+/-- a failure — or a PANIC at one of `distinctfd`'s panic sites — happens only when there is no solution -/
+theorem C17_distinctfd_fail_means_unsat {ord : Order} (ho : OrderOK ord) (n : Nat) (as : List FAtom)
+    (hok : ∀ a ∈ as, @FAtom.OK Mode.lax a) :
+    (postAllF ord (State.empty n) as = .fail → ¬ ∃ γ, ∀ a ∈ as, a.Sat γ) ∧
+    (∀ s, postAllF ord (State.empty n) as = .panic s → ¬ ∃ γ, ∀ a ∈ as, a.Sat γ) :=
+  ⟨@C17_fail_means_unsat Mode.lax ord ho n as hok, fun s h => (@fd_panic_refuted Mode.lax ord ho n as hok s h).2.2⟩
+
 section Examples
+attribute [local instance] Mode.lax
 /-- D14 witness: with `u, v ∈ -2..=2` and `w = -2` the repaired bounds keep all four solutions -/
 example : (timesBounds (-2) 2 (-2) 2 (-2) (-2)) = (.interval (-4) 4, .interval (-2) 2, .interval (-2) 2) := by decide
 example : (FD.interval (-1) 2).iter = [-1, 0, 1, 2] := by decide
@@ -138,7 +161,7 @@ private def progU : List FAtom :=
 example : ∀ a ∈ progU, a.OK := by
   intro a ha
   simp only [progU, List.mem_cons, List.not_mem_nil, or_false] at ha
-  rcases ha with rfl | rfl | rfl | rfl <;> simp [FAtom.OK, FD.WF, FD.StrictSorted, Cst.isDistinct]
+  rcases ha with rfl | rfl | rfl | rfl <;> simp [FAtom.OK, FD.WF, FD.StrictSorted, CstOK]
 example : (match postAllF Order.default (State.empty 2) progU with
     | .ok st => st.store.isEmpty && st.dstore.isEmpty && (st.σ 0 == Term.num 4) && (st.σ 1 == Term.num 4)
     | _ => false) = true := by decide
